@@ -1574,14 +1574,8 @@ def spatial_derivatives(
                 sdim = SpatialDim.from_arg(code[i])
                 result = data if i == 0 else derivs[code[:i]]
                 if avg_kernel is not None:
-                    for d in (d for d in range(D) if d != sdim):
-                        dim = SpatialDim(d).tensor_dim(result.ndim)
-                        result = conv1d(
-                            result,
-                            avg_kernel,
-                            dim=dim,
-                            padding=len(avg_kernel) // 2,
-                        )
+                    kernels = [None if d == sdim else avg_kernel for d in reversed(range(D))]
+                    result = conv(result, kernels, padding=PaddingMode.REPLICATE)
                 fd_spacing = spacing[:, sdim]
                 result = finite_differences(result, sdim, mode=fd_mode, spacing=fd_spacing)
                 derivs[key] = result
